@@ -208,7 +208,8 @@ def check(pid, tier, seed, only_report=None):
         if not new_viol:
             return 2
     rc = 0
-    os.makedirs(os.path.join(VERIF, "replays"), exist_ok=True)
+    rpdir = os.environ.get("VERIF_REPLAY_DIR", os.path.join(VERIF, "replays"))
+    os.makedirs(rpdir, exist_ok=True)
     for k, f in known_hit:
         print("KNOWN-FINDING: property=%s %s — %s" % (pid, f["obligation"], k["what"]))
     for f in new_viol:
@@ -222,7 +223,7 @@ def check(pid, tier, seed, only_report=None):
                 f["cex_native"] = rp_["native"] == "failed"
             else:
                 f["cex"] = "none — " + rp_["log"]
-        rp = os.path.join(VERIF, "replays", "%s-%s.txt" % (pid, re.sub(r"[^A-Za-z0-9_.-]+", "_", f["obligation"])))
+        rp = os.path.join(rpdir, "%s-%s.txt" % (pid, re.sub(r"[^A-Za-z0-9_.-]+", "_", f["obligation"])))
         with open(rp, "w") as fh:
             fh.write("property: %s\nobligation: %s\nserves: %s\nverifier message: %s\nsource: %s\nfailing text: %s\n"
                      "counterexample: %s\n\n--- verifier output ---\n%s\n" % (
@@ -267,6 +268,7 @@ def _write_evidence(pid, tier, seed, prop, wall, ob_total, ob_discharged, ob_bou
     )
     ev = dict(property_id=pid, tier=tier, seed=seed, level=level, coverage=cov,
               assumptions=prop.get("assumptions", []) + REG.COMMON_ASSUMPTIONS, wall_s=round(wall, 2), violations=nviol)
-    os.makedirs(os.path.join(VERIF, "evidence"), exist_ok=True)
-    with open(os.path.join(VERIF, "evidence", pid + ".json"), "w") as f:
+    evdir = os.environ.get("VERIF_EVIDENCE_DIR", os.path.join(VERIF, "evidence"))
+    os.makedirs(evdir, exist_ok=True)
+    with open(os.path.join(evdir, pid + ".json"), "w") as f:
         json.dump(ev, f, indent=1)
